@@ -281,7 +281,11 @@ func runCheck(prop, tier string, overlay map[string][]byte, mutantMode bool) (*C
 				for k := 0; k < len(idxs) && taken < per; k += step {
 					pc := rep.CoverPCs[idxs[k]]
 					q := &Query{Name: "vacuity", Axioms: sv.axioms, Asserts: pc}
-					vqs = append(vqs, &vq{rep: i, site: sx, text: "; vacuity guard: this must not be unsat\n" + q.SMT(false)})
+					tr := ""
+					if idxs[k] < len(rep.CoverTraces) {
+						tr = "; path: " + strings.Join(rep.CoverTraces[idxs[k]], " ") + "\n"
+					}
+					vqs = append(vqs, &vq{rep: i, site: sx, text: "; vacuity guard: this must not be unsat\n" + tr + q.SMT(false)})
 					taken++
 				}
 			}
@@ -358,7 +362,7 @@ func runCheck(prop, tier string, overlay map[string][]byte, mutantMode bool) (*C
 				}
 			}
 			sort.Strings(deadSites)
-			if n == 0 || refuted == n {
+			if n == 0 || (refuted == n && len(deadSites) == len(siteN)) {
 				o := &Obligation{Name: fmt.Sprintf("%s/%s/meta:vacuity", prop, rep.Key), Kind: "meta", Fn: rep.Key, Result: "unsupported",
 					Unsupp: fmt.Sprintf("vacuity guard: no return path is reachable (%d paths, %d refuted): contradictory precondition, axiom or invariant", n, refuted)}
 				solveList = append(solveList, o)
